@@ -44,6 +44,7 @@ def check(ctx):
     # guards whose failure mode is an exception (shared rule instances)
     views = family_views(P, "Node")
     c07.disarm(ctx, P, views, iters)
+    c07.victims_not_blocked(ctx, P, views)      # (its failure mode is an exception in the middle of a run)
     c11.call_sites(ctx, P, views, iters)
     c01.index_agreement(ctx, P, views, iters)
     # book-keeping whose failure mode is an exception (list.remove of an absent customer) or a wrong stop count
